@@ -55,7 +55,7 @@ SimScan ==
        /\ Assert(PropViolations(World, F, r) = {}, <<"PROPERTY VIOLATED ON THE MODEL", PropViolations(World, F, r)>>)
        /\ LET g2 == r.W.groups[G] IN
           /\ api' = g2.api /\ asg' = g2.asg /\ pc' = g2.pc /\ ctl' = g2.ctl /\ accepted' = g2.accepted /\ alive' = r.W.alive
-       /\ UNCHANGED <<now, pend, run, snap>>
+       /\ now' = r.W.now /\ UNCHANGED <<pend, run, snap>>
        /\ hist' = Append(hist, [E("scan") EXCEPT !.faults = SetToSortedSeq(F)])
 
 \* scans are favoured so that behaviours are not mostly environment noise
